@@ -483,7 +483,7 @@ func (r *runner) runCase(job caseJob, solver *Solver) {
 		defer func() {
 			if e := recover(); e != nil {
 				if ue, ok := e.(unsupportedErr); ok {
-					fatal = ue.Error() + " [in " + strings.Join(ex.ctxTail(3), " < ") + "]"
+					fatal = ue.Error() + " at " + ex.pos(ex.curInstr) + " [in " + strings.Join(ex.ctxTail(3), " < ") + "]"
 				} else if ue, ok := e.(error); ok && strings.HasPrefix(ue.Error(), "unsupported") {
 					fatal = ue.Error()
 				} else {
